@@ -332,6 +332,37 @@ def random_skin_bay(rng):
     return dict(kind="bay", skin=pd, cuts=[rat(Fraction(f, 64) * b) for f in fracs], stiffs=[])
 
 
+LAMS = [dict(stack=[dict(dir=[0, 1], t=rat(Fraction(1, 8)), mat=[rat(10), rat(2), rat(Fraction(1, 4)), rat(1), rat(1), rat(Fraction(1, 2))]),
+                   dict(dir=[1, 0], t=rat(Fraction(1, 8)), mat=[rat(10), rat(2), rat(Fraction(1, 4)), rat(1), rat(1), rat(Fraction(1, 2))])],
+             off=rat(0)),
+        dict(stack=[dict(dir=[1, 1], t=rat(Fraction(1, 4)), mat=[rat(7), rat(7), rat(Fraction(1, 4))])], off=rat(0))]
+
+
+def random_stiff_bay(rng):
+    """random skin, 1..3 dyadic cuts, 1..4 stiffeners of random kinds / compositions at random tile edges"""
+    bd = random_skin_bay(rng)
+    pd = bd["skin"]
+    pd["m"], pd["n"] = rng.randint(2, 3), rng.randint(2, 3)
+    pd["off"] = rat(0)
+    b = fr(pd["b"])
+    fracs = sorted(rng.sample(range(8, 56), rng.randint(1, 3)))
+    bd["cuts"] = [rat(Fraction(f, 64) * b) for f in fracs]
+    stiffs = []
+    for _ in range(rng.randint(1, 4)):
+        kind = rng.choice(["b1d", "b2d", "b2d", "t2d", "t2d"])
+        base, flange = True, True
+        if kind == "b1d":
+            base = False                 # a padup makes calc_kM raise (C20's finding); exercised on the lattice
+        elif kind == "b2d":
+            base, flange = rng.choice([(True, True), (False, True), (False, True), (True, False)])
+        stiffs.append(dict(kind=kind, ys=rng.choice(bd["cuts"]), base=base, flange=flange,
+                           bb=rat(Fraction(rng.randint(1, 3), 8)), bf=rat(Fraction(rng.randint(1, 4), 8)),
+                           mb=rng.randint(1, 2), nb=rng.randint(1, 2), mf=2, nf=rng.randint(1, 2),
+                           blam=rng.choice(LAMS), flam=rng.choice(LAMS)))
+    bd["stiffs"] = stiffs
+    return bd
+
+
 # ---------------------------------------------------------------------------------------------------------------------
 
 def describe(d, r):
@@ -369,14 +400,14 @@ def run(tier, seed, build):
         else:
             seen.add(("panels", len(d["pds"]), len(d["conns"])))
     need = [("asm", q) for q in ("size", "k0", "kG0", "kM", "fext", "fint", "kT")] + \
-           [("bay", q) for q in ("size", "k0", "kG0", "kM", "place", "fext")] + \
+           [("bay", q) for q in ("size", "k0", "kG0", "kM", "place", "fext", "b1dmass")] + \
            [("cuts", k, False) for k in range(5)] + [("panels", 1, 0), ("panels", 4, 2)]
     missing = [x for x in need if x not in seen]
     if missing:
         rep.machinery("bounded model is vacuous for " + str(missing))
         return rep.finish()
     # 2. replay into the real code + seeded random definitions
-    nrand = 6 if tier == "quick" else 60
+    nrand = 8 if tier == "quick" else 100
     for _ in range(nrand):
         ad = random_asm(rng)
         for q in (["size", "k0"] + rng.sample(["kG0", "kM", "fext"], 1 if tier == "quick" else 3)):
@@ -384,6 +415,9 @@ def run(tier, seed, build):
         bd = random_skin_bay(rng)
         for q in (["size"] + rng.sample(["k0", "kG0", "kM"], 1 if tier == "quick" else 3)):
             pairs.append((bd, dict(q=q, N=[rat(Fraction(rng.randint(-12, 12), 4)) for _ in range(3)]) if q == "kG0" else dict(q=q)))
+    for _ in range(nrand // 3):
+        bd = random_stiff_bay(rng)
+        pairs += [(bd, dict(q="size")), (bd, dict(q="place"))]
     events, meta = [], {}
     gc.collect()
     gc.freeze()          # the package calls gc.collect() in every method: keep the parsed lattice out of its way
@@ -460,7 +494,8 @@ def run(tier, seed, build):
     rep.cov["rule"] = ("TLC-enumerated lattice (assemblies of 1..4 unequal panels, both orders, 0..2 connections of kinds SSycte/"
                        "SSxcte/BFycte/SB; bays cut at 0..4 arbitrary positions, flat and curved; bays with 0..2 stiffeners of each "
                        "kind in several insertion orders) replayed on freshly built PanelAssembly / StiffPanelBay objects + %d seeded "
-                       "random assemblies and %d random skin bays; distinct = distinct (description, request)" % (nrand, nrand))
+                       "random assemblies, %d random skin bays, %d random stiffened bays; distinct = distinct (description, request)"
+                       % (nrand, nrand, nrand // 3))
     rep.assumptions += [
         "panels, skins, connections, load vectors: judged entry by entry against the specification's exact values, tolerance "
         "2^-%d of the term-magnitude scale (2^-%d for the Gauss-integrated fint / kT)" % (TOL, TOL_NL),
